@@ -24,23 +24,25 @@
 (*   en0    Template(cache_enabled=...)                                    *)
 (*   inh    template it inherits from (0 = none); isbase = its page calls  *)
 (*          next.body() (it is only rendered through an inheriting one)    *)
-(*   page   [cached, key, pfx, args, parg, items] (the <%page> tag + body)  *)
+(*   page   [cached, key, pfx, args, sig, kp, items] (<%page> tag + body)   *)
 (*   secs   sequence of [name, kind, cached, key, pfx, args, buf, filt,    *)
-(*          items]; kind in def | ndef (nested def) | nblock | ablock      *)
+(*          sig, kp, items]; kind in def | ndef (nested def) | nblock |    *)
+(*          ablock; sig = the callable's signature (see Bind), kp = the    *)
+(*          parameter its cache_key mentions                               *)
 (*   items  what a body does after printing its own token: a sequence of   *)
-(*          [sec, arg, tm, how]: call section `sec` with def argument `arg` *)
-(*          ("V" = the context variable); how = "call" (same template),    *)
+(*          [sec, pos, kw, tm, how]: call section `sec` with positional    *)
+(*          and keyword actuals; how = "call" (same template),             *)
 (*          "ns" (def of template tm through a namespace), "inc" (include  *)
 (*          of template tm), "next" (next.body() of an inherited page)     *)
 (* key = "static" (the callable's name), "ctx" (cache_key="<pfx>${v}"),     *)
-(* "arg" (cache_key="<pfx>${x}", x the callable's argument), "argctx"      *)
+(* "arg" (cache_key="<pfx>${p}", p a parameter of the callable), "argctx"  *)
 (* (both) or "mod" (a module-level name).                                  *)
 (* Values are tagged strings ("s:memory", "i:7", "o:dict") so that an int  *)
 (* and a string never get compared by TLC.                                 *)
-(* Output is a sequence of tokens <<name, n, ctx, arg, t>>: section `name`  *)
-(* of template t, n-th execution of its body, context value and argument   *)
-(* it saw; filter and buffer-filter applications are bracket tokens around *)
-(* the content.                                                            *)
+(* Output is a sequence of tokens <<name, n, ctx, b, t>>: section `name` of *)
+(* template t, n-th execution of its body, context value and the binding b *)
+(* of its parameters the body saw; filter and buffer-filter applications   *)
+(* are bracket tokens around the content.                                  *)
 (* Worlds are assumed well-formed (the generator guarantees it): calls     *)
 (* across templates go to higher-numbered templates, and a section never   *)
 (* reaches, through calls, a section with a possibly equal key in the same *)
@@ -83,6 +85,7 @@ NSec(t) == Len(W[t].secs)
 \* the page seen as section 0
 SecOf(t, j) == IF j = 0 THEN [name |-> "body", kind |-> "page", cached |-> W[t].page.cached, key |-> W[t].page.key,
                               pfx |-> W[t].page.pfx, args |-> W[t].page.args, buf |-> FALSE, filt |-> FALSE,
+                              sig |-> W[t].page.sig, kp |-> W[t].page.kp,
                               items |-> W[t].page.items]
                ELSE W[t].secs[j]
 TopLevel(s) == s.kind \in {"page", "def", "nblock"}
@@ -104,13 +107,37 @@ Expected(t, s) == LET b == Conv(ToFn(s.args)) @@ Conv(ToFn(W[t].page.args)) @@ T
 
 (* ---------------- keys, names, namespaces ---------------- *)
 DefName(s) == IF s.kind \in {"page", "def", "nblock"} THEN <<"render_", s.name>> ELSE <<"", s.name>>
-ArgVal(a, c) == IF a = "V" THEN c ELSE a
-\* cache_key is evaluated in the scope of the section's wrapper: context variables ("ctx": <pfx>${v}), the
-\* callable's arguments ("arg": <pfx>${x}), both ("argctx": <pfx>${x}_${v}), module-level names ("mod": <pfx>${MK})
-KeyOf(s, c, a) == IF s.key = "static" THEN DefName(s) ELSE IF s.key = "ctx" THEN <<s.pfx, c>>
-                  ELSE IF s.key = "arg" THEN <<s.pfx, a>> ELSE IF s.key = "argctx" THEN <<s.pfx, a, c>> ELSE <<s.pfx, "m">>
-\* <%page args="x='P'"/>: the page body is a callable with a defaulted argument (parg = "P"), else parg = ""
-PageArg(t) == W[t].page.parg
+\* ---- signatures.  sig = sequence of parameters [n (name), k (kind), d (default)], in a legal order:
+\*   "pos" (positional) * , "def" (positional with default) * , ["var" (*args)], ("kwo" | "kwd": keyword-only without /
+\*   with default) * , ["kw" (**kwargs)].  A call supplies positional actuals `pos` and keyword actuals `kw`
+\*   (<<name, actual>>); the actual "V" is the context variable.  Bind is Python's binding of a LEGAL call (the generator
+\*   only produces legal ones): the creation function of a cached section must receive exactly these bindings.
+\*   A binding is a sequence (one element per parameter) of sequences of strings: <<value>> for a scalar parameter, the
+\*   extra positionals for *args, name, value, name, value ... (sorted by name) for **kwargs.
+Act(v, c) == IF v = "V" THEN c ELSE v
+KwExtra == <<"k1", "k2">>
+Bind(sig, pos0, kw0, c) ==
+  LET pos  == [i \in DOMAIN pos0 |-> Act(pos0[i], c)]
+      kwn  == {kw0[i][1] : i \in DOMAIN kw0}
+      kwf  == [n \in kwn |-> Act(kw0[CHOOSE i \in DOMAIN kw0 : kw0[i][1] = n][2], c)]
+      npc  == Cardinality({i \in DOMAIN sig : sig[i].k \in {"pos", "def"}})
+      own  == {sig[i].n : i \in DOMAIN sig}
+      Ex(n) == IF n \in kwn \ own THEN <<n, kwf[n]>> ELSE <<>>
+      One(i) == LET p == sig[i] IN
+                IF p.k \in {"pos", "def"}
+                THEN <<IF i <= Len(pos) THEN pos[i] ELSE IF p.n \in kwn THEN kwf[p.n] ELSE p.d>>
+                ELSE IF p.k = "var" THEN (IF Len(pos) > npc THEN SubSeq(pos, npc + 1, Len(pos)) ELSE <<>>)
+                ELSE IF p.k \in {"kwo", "kwd"} THEN <<IF p.n \in kwn THEN kwf[p.n] ELSE p.d>>
+                ELSE Ex(KwExtra[1]) \o Ex(KwExtra[2])
+  IN [i \in DOMAIN sig |-> One(i)]
+\* cache_key is evaluated in the scope of the section's wrapper: context variables ("ctx": <pfx>${v}), any scalar
+\* parameter of the callable (kp = its index; "arg": <pfx>${p}), both ("argctx": <pfx>${p}_${v}), module-level names
+\* ("mod": <pfx>${MK})
+KeyOf(s, c, b) == IF s.key = "static" THEN DefName(s) ELSE IF s.key = "ctx" THEN <<s.pfx, c>>
+                  ELSE IF s.key = "arg" THEN <<s.pfx, b[s.kp][1]>> ELSE IF s.key = "argctx" THEN <<s.pfx, b[s.kp][1], c>>
+                  ELSE <<s.pfx, "m">>
+\* the page body (<%page args="..."/>), rendered / included / reached through next.body(): no actuals, defaults apply
+PageBind(t) == Bind(W[t].page.sig, <<>>, <<>>, "")
 WordSym(x) == x \notin {"-", ".", "/", "~", "+", " "}
 Sanitise(u) == [i \in DOMAIN u |-> IF WordSym(u[i]) THEN u[i] ELSE "_"]
 Ns(t) == IF "ns-sanitised" \in AsCoded THEN Sanitise(W[t].uri) ELSE W[t].uri
@@ -119,7 +146,7 @@ Without(f, k) == [x \in DOMAIN f \ {k} |-> f[x]]
 
 (* ---------------- output tokens ---------------- *)
 Tok(name, n, c, a, t) == <<name, n, c, a, t>>
-Br(x) == <<x, 0, "", "", 0>>
+Br(x) == <<x, 0, "", <<>>, 0>>
 Fw(on, v) == IF on THEN <<Br("{")>> \o v \o <<Br("}")>> ELSE v           \* the section's own filter
 BFw(on, v) == IF on THEN <<Br("<")>> \o v \o <<Br(">")>> ELSE v          \* Template buffer_filters
 \* what the section writes when it is not cached (write_def_finish): filter, then buffer filters iff buffered
@@ -160,12 +187,12 @@ RunItems(t, c, items, i, S) ==
   IF i > Len(items) THEN S
   ELSE LET it == items[i] IN
        RunItems(t, c, items, i + 1,
-                IF it.how = "call" THEN RunSec(t, c, it.sec, ArgVal(it.arg, c), S)
-                ELSE IF it.how = "ns" THEN RunSec(it.tm, c, it.sec, ArgVal(it.arg, c), S)
+                IF it.how = "call" THEN RunSec(t, c, it.sec, Bind(SecOf(t, it.sec).sig, it.pos, it.kw, c), S)
+                ELSE IF it.how = "ns" THEN RunSec(it.tm, c, it.sec, Bind(SecOf(it.tm, it.sec).sig, it.pos, it.kw, c), S)
                 ELSE IF it.how = "inc"       \* the included template is rendered through its own inheritance chain
-                THEN LET ch == Chain(it.tm) IN [RunSec(Head(ch), c, 0, PageArg(Head(ch)), [S EXCEPT !.nx = Tail(ch)]) EXCEPT !.nx = S.nx]
+                THEN LET ch == Chain(it.tm) IN [RunSec(Head(ch), c, 0, PageBind(Head(ch)), [S EXCEPT !.nx = Tail(ch)]) EXCEPT !.nx = S.nx]
                 ELSE \* "next": ${next.body()} in the page of an inherited template
-                     [RunSec(Head(S.nx), c, 0, PageArg(Head(S.nx)), [S EXCEPT !.nx = Tail(@)]) EXCEPT !.nx = S.nx])
+                     [RunSec(Head(S.nx), c, 0, PageBind(Head(S.nx)), [S EXCEPT !.nx = Tail(@)]) EXCEPT !.nx = S.nx])
 RunSec(t, c, j, a, S) ==
   LET s == SecOf(t, j)
       n == Ns(t)
@@ -211,7 +238,7 @@ Render(t, c) ==
   /\ LET ch == Chain(t)
          S0 == [st |-> store, rn |-> runs, ex |-> execs, rg |-> regions, calls |-> <<>>, served |-> <<>>, out |-> <<>>,
                 nx |-> Tail(ch)]
-         S1 == RunSec(Head(ch), c, 0, PageArg(Head(ch)), S0)
+         S1 == RunSec(Head(ch), c, 0, PageBind(Head(ch)), S0)
      IN /\ store' = S1.st /\ runs' = S1.rn /\ execs' = S1.ex /\ regions' = S1.rg
         /\ last' = [op |-> "render", t |-> t, c |-> c, out |-> S1.out, calls |-> S1.calls, served |-> S1.served]
   /\ UNCHANGED <<pg, enabled, nset>>
@@ -220,9 +247,12 @@ RenderDef(t, j, a, c) ==
   /\ "renderdef" \in Ops
   /\ W[t].secs[j].kind = "def"
   /\ ~W[t].secs[j].buf      \* DefTemplate.render() drops what a buffered def RETURNS, cached or not: not a caching matter
+  /\ \A i \in DOMAIN W[t].secs[j].sig : W[t].secs[j].sig[i].k \notin {"kwo", "kw"}    \* render(**data) feeds named parameters only
   /\ LET S0 == [st |-> store, rn |-> runs, ex |-> execs, rg |-> regions, calls |-> <<>>, served |-> <<>>, out |-> <<>>,
                 nx |-> <<>>]
-         S1 == RunSec(t, c, j, a, S0)
+         sg == W[t].secs[j].sig
+         np == Cardinality({i \in DOMAIN sg : sg[i].k = "pos"})
+         S1 == RunSec(t, c, j, Bind(sg, <<>>, [i \in 1..np |-> <<sg[i].n, a>>], c), S0)     \* required parameters by keyword
      IN /\ store' = S1.st /\ runs' = S1.rn /\ execs' = S1.ex /\ regions' = S1.rg
         /\ last' = [op |-> "renderdef", t |-> t, name |-> W[t].secs[j].name, arg |-> a, c |-> c, out |-> S1.out,
                     calls |-> S1.calls, served |-> S1.served]
@@ -247,7 +277,7 @@ Invalidate(t, k, x) ==
   /\ UNCHANGED <<pg, regions, enabled, execs, nset>>
 Set(t, k, x) ==
   /\ "set" \in Ops
-  /\ LET v == <<Tok("set", nset + 1, "", "", 0)>>
+  /\ LET v == <<Tok("set", nset + 1, "", <<>>, 0)>>
      IN store' = [store EXCEPT ![Ns(t)] = (k :> [val |-> v, ref |-> v, owner |-> t, sec |-> 0, by |-> "set"]) @@ @]
   /\ nset' = nset + 1
   /\ last' = [op |-> "set", t |-> t, key |-> k, x |-> x, n |-> nset + 1,
@@ -269,7 +299,7 @@ ToggleEnabled(t) ==
 
 \* names and keys the operations range over
 NamesOf(t, kinds) == {W[t].secs[j].name : j \in {i \in 1..NSec(t) : W[t].secs[i].kind \in kinds /\ W[t].secs[i].cached}}
-ArgVals == {"A", "B", "P"} \cup CtxVals
+ArgVals == {"A", "B", "D2"} \cup CtxVals      \* a sample of argument values for the keys of get/set/invalidate
 KeysOf(t) == UNION {LET s == SecOf(t, j) IN
                       IF ~s.cached THEN {}
                       ELSE IF s.key = "static" THEN {DefName(s)}
